@@ -58,7 +58,34 @@ def check(D, op, types, g, extra=None):
     return None, call
 
 
+def orderings(req):
+    """the real multicontract for every ordering / orientation of one pairing vs a direct numpy evaluation of the definition"""
+    D, k, pairing = req["D"], req["k"], [tuple(p_) for p_ in req["pairing"]]
+    A = rnd(D, k, 11)
+    a = gi(A, 1, D)
+    used = {i for pr in pairing for i in pr}
+    rest = [i for i in range(k) if i not in used]
+    letters = [chr(ord("a") + i) for i in range(D + k)]
+    for (i, j) in pairing:
+        letters[D + j] = letters[D + i]
+    exp = np.einsum("".join(letters) + "->" + "".join(letters[:D] + [letters[D + r] for r in rest]), A)
+    for order in itertools.permutations(range(len(pairing))):
+        for flips in itertools.product([0, 1], repeat=len(pairing)):
+            idx = tuple((pairing[o][1], pairing[o][0]) if f else pairing[o] for o, f in zip(order, flips))
+            call = f"GeometricImage(k={k}, D={D}).multicontract({idx})"
+            try:
+                got = np.array(a.multicontract(idx).data)
+                got2 = np.array(geom.multicontract(jnp.array(A, dtype=jnp.float32)[None, None], idx, idx_shift=D + 2))[0, 0]
+            except Exception as ex:
+                return f"raises {type(ex).__name__}: {str(ex)[:120]}", call
+            if got.shape != exp.shape or not np.allclose(got, exp, atol=1e-4) or got2.shape != exp.shape or not np.allclose(got2, exp, atol=1e-4):
+                return "result differs from the contraction of the un-ordered pairing (the definition)", call
+    return None, f"multicontract orderings of {pairing}"
+
+
 def from_req(req):
+    if req.get("op") == "multicontract_orderings":
+        return orderings(req)
     D = req["D"]
     if req.get("op") == "mul":
         types = [(req["k1"], req["p1"]), (req["k2"], req["p2"])]
@@ -108,6 +135,12 @@ def standin(req):
                     fails.append({"name": call, "detail": d, "request": rq})
                     if len(fails) >= 3:
                         return {"ok": True, "evaluations": n, "failures": fails}
+    for D, k, prs in [(2, 4, [[0, 1], [2, 3]]), (2, 4, [[0, 3], [1, 2]]), (2, 4, [[0, 2], [1, 3]]), (2, 5, [[1, 4], [2, 3]]), (2, 5, [[0, 2], [1, 4]]), (3, 4, [[0, 3], [1, 2]])]:
+        rq = dict(scenario="op", op="multicontract_orderings", D=D, k=k, pairing=prs)
+        d, call = orderings(rq)
+        n += 1
+        if d is not None:
+            fails.append({"name": call, "detail": d, "request": rq})
     return {"ok": True, "evaluations": n, "failures": fails, "grid": "all ops x types k<=3 (d=2)/k<=2 (d=3) x group elements, integer-valued images"}
 
 
